@@ -163,33 +163,49 @@ example :
 
 /-! ## `_Alignas` -/
 
-/-- **C08 (`_Alignas`).**  What `declspec` and `struct_members` make of an alignment specifier on a member (the two
-    assignments are regenerated from parse.c): `_Alignas(type-name)` gives the member exactly `_Alignof(type-name)` —
-    not its size, whatever the operand (array, struct, union, pointer, scalar) — and `_Alignas(n)` gives `n`; without a
-    specifier (or with `_Alignas(0)`, C11 6.7.5p6) the member keeps the alignment of its type. -/
+/-- **C08 (`_Alignas`, one specifier).**  What the `_Alignas` arm of `declspec` (regenerated from parse.c) does with the
+    running `attr->align`: a type-name operand contributes exactly its *alignment* (`typename(..)->align`, never its size,
+    whatever the operand: array, struct, union, pointer, scalar), a constant operand its value, and the strictest wins
+    (`MAX`). -/
 theorem C08_alignas :
-    (∀ (d : MemDecl) (aty ty : Ty) (rest : Members) (sa aa s a : Int) (tl : List Mem),
-      aty.sizeAlign = .ok (sa, aa) → ty.sizeAlign = .ok (s, a) → rest.toMems = .ok tl → aa ≠ 0 →
-      (Members.consT d aty ty rest).toMems =
-        .ok ({ size := s, align := aa, bitWidth := d.bitWidth, named := d.named } :: tl)) ∧
-    (∀ (d : MemDecl) (ty : Ty) (rest : Members) (s a : Int) (tl : List Mem),
-      ty.sizeAlign = .ok (s, a) → rest.toMems = .ok tl →
-      (Members.cons d ty rest).toMems =
-        .ok ({ size := s, align := if d.alignas ≠ 0 then d.alignas else a, bitWidth := d.bitWidth, named := d.named } :: tl)) := by
+    (∀ (t : Ty) (rest : Aligns) (acc s a : Int), t.sizeAlign = .ok (s, a) →
+      (Aligns.type t rest).eval acc = rest.eval (if acc < a then a else acc)) ∧
+    (∀ (n : Int) (rest : Aligns) (acc : Int),
+      (Aligns.const n rest).eval acc = rest.eval (if acc < n then n else acc)) := by
   constructor
-  · intro d aty ty rest sa aa s a tl h1 h2 h3 hne
-    simp only [Members.toMems, h1, h2, h3, bind, Except.bind, pure, Except.pure, memberAlign, alignasOfType, ne_eq, hne,
-      not_false_eq_true, if_true]
-  · intro d ty rest s a tl h2 h3
-    simp only [Members.toMems, h2, h3, bind, Except.bind, pure, Except.pure, memberAlign, alignasOfConst]
+  · intro t rest acc s a h
+    simp only [Aligns.eval, h, bind, Except.bind, alignasCombine, alignasOfType]
+    rfl
+  · intro n rest acc
+    simp only [Aligns.eval, alignasCombine, alignasOfConst]
     rfl
 
+/-- **C08 (`_Alignas`, any number of specifiers; partial only in that type-name operands must lie outside the three
+    packed regions).**  For every list of alignment specifiers, `declspec` leaves in `attr->align` the maximum of
+    `_Alignof(T)` over the type-name operands and `n` over the constant operands (C11 6.7.5p6: the strictest; 0 = none), and
+    an object declared with them — automatic, block-scope static or file scope — gets that alignment, or the alignment of
+    its type if there is no (non-zero) specifier. -/
+theorem C08_alignas_partial (as : Aligns) (ty : Ty) (h : as.ok true = true) (hty : ty.ok true = true) :
+    as.eval 0 = .ok ((specAligns as : Nat) : Int) ∧ varAlign as ty = .ok ((specVarAlign as ty : Nat) : Int) := by
+  have h1 := as_eq as h 0
+  simp only [Nat.zero_max, Int.natCast_zero] at h1
+  refine ⟨h1, ?_⟩
+  have h2 := (ty_eq ty hty).1
+  simp only [varAlign, h1, h2, bind, Except.bind, pure, Except.pure, specVarAlign, Except.ok.injEq]
+  by_cases h0 : specAligns as = 0
+  · simp [h0]
+  · simp [h0]
+
 -- non-vacuity: `struct { char tag; _Alignas(int[3]) unsigned char buf[12]; }` is 16/4 with buf at 4 (a size-for-alignment
--- mix-up would give 24/12 with buf at 12)
+-- mix-up would give 24/12 with buf at 12); `_Alignas(16) _Alignas(4) char c;` is aligned to 16
 example :
-    let t : Ty := .struct false none (.cons ⟨0, none, true⟩ (.prim .char)
-      (.consT ⟨0, none, true⟩ (.arr (.prim .int) 3) (.arr (.prim .uchar) 12) .nil))
+    let t : Ty := .struct false none (.cons ⟨none, true⟩ .nil (.prim .char)
+      (.cons ⟨none, true⟩ (.type (.arr (.prim .int) 3) .nil) (.arr (.prim .uchar) 12) .nil))
     t.ok true = true ∧ t.layout = .ok ⟨16, 4, [⟨0, 0⟩, ⟨4, 0⟩]⟩ ∧ specTy t = ⟨16, 4, [⟨0, 0, 0⟩, ⟨32, 4, 0⟩]⟩ := by
+  decide
+example :
+    let as : Aligns := .const 16 (.const 4 (.type (.struct false none (.cons ⟨none, true⟩ .nil (.arr (.prim .char) 12) .nil)) .nil))
+    as.ok true = true ∧ specAligns as = 16 ∧ varAlign as (.prim .char) = .ok 16 ∧ varAlign .nil (.prim .int) = .ok 4 := by
   decide
 
 /-! ## whole types: nested and anonymous aggregates, arrays, pointers, flexible array members -/
@@ -210,11 +226,11 @@ theorem C08_types_partial (t : Ty) (h : t.ok true = true) : t.layout = .ok (spec
 
 -- non-vacuity: struct { char a; struct { long x; int y : 5; int : 0; char z[3]; }; union { short s; long double d; } u; int *p[2]; char f[]; }
 example :
-    let inner : Ty := .struct false none (.cons ⟨0, none, true⟩ (.prim .long) (.cons ⟨0, some 5, true⟩ (.prim .int)
-      (.cons ⟨0, some 0, false⟩ (.prim .int) (.cons ⟨0, none, true⟩ (.arr (.prim .char) 3) .nil))))
-    let u : Ty := .union false none (.cons ⟨0, none, true⟩ (.prim .short) (.cons ⟨0, none, true⟩ (.prim .ldouble) .nil))
-    let t : Ty := .struct false none (.cons ⟨0, none, true⟩ (.prim .char) (.cons ⟨0, none, false⟩ inner
-      (.cons ⟨0, none, true⟩ u (.cons ⟨0, none, true⟩ (.arr .ptr 2) (.cons ⟨0, none, true⟩ (.flex (.prim .char)) .nil)))))
+    let inner : Ty := .struct false none (.cons ⟨none, true⟩ .nil (.prim .long) (.cons ⟨some 5, true⟩ .nil (.prim .int)
+      (.cons ⟨some 0, false⟩ .nil (.prim .int) (.cons ⟨none, true⟩ .nil (.arr (.prim .char) 3) .nil))))
+    let u : Ty := .union false none (.cons ⟨none, true⟩ .nil (.prim .short) (.cons ⟨none, true⟩ .nil (.prim .ldouble) .nil))
+    let t : Ty := .struct false none (.cons ⟨none, true⟩ .nil (.prim .char) (.cons ⟨none, false⟩ .nil inner
+      (.cons ⟨none, true⟩ .nil u (.cons ⟨none, true⟩ .nil (.arr .ptr 2) (.cons ⟨none, true⟩ .nil (.flex (.prim .char)) .nil)))))
     t.ok true = true ∧ specTy t = ⟨64, 16, [⟨0, 0, 0⟩, ⟨64, 8, 0⟩, ⟨256, 32, 0⟩, ⟨384, 48, 0⟩, ⟨512, 64, 0⟩]⟩ := by
   decide
 
